@@ -1,5 +1,5 @@
 import Driver.Sexp
-import Pcore.Model.Parse
+import Pcore.Model.Resolve
 import Pcore.Model.Utf8
 import Pcore.Generated.UnicodeLetter
 /-!
@@ -26,7 +26,7 @@ def badList : Sexp → Option (List Str)
     as unknown names; every other non-core name may be loadable — `My::Pt`, `Pcore::AnyType`, `Deferred` … — and is answered
     `unmodelled`) -/
 def unknownNames : List Str :=
-  ["Foo", "Bar", "My::Thing", "My::Other", "Catalogentry", "A::B", "Foo::Bar", "X", "Y", "Z", "W", "Ref"].map String.toList
+  ["Foo", "Bar", "My::Thing", "My::Other", "Catalogentry", "Foo::Bar"].map String.toList
 
 def mkEnv (bad : List Str) : Env :=
   { isLetter := isLetter, rxOK := fun s => !bad.contains s, pf := parseFloat, unknown := fun n => unknownNames.contains n }
@@ -81,5 +81,22 @@ def parseOp (b bad : Sexp) : String :=
   match b.bytes?, badList bad with
   | some bs, some bl => outcomeStr (parse (mkEnv bl) (decodeUtf8 bs))
   | _, _ => "bad-op"
+
+/-- op `resolve <xBYTES> (<xBADRX>*) [((BITS xTEXT)*)]`: `Context.ParseType` — the resulting type's text, the reported issue
+    code, the parse error, or `outside` (the expression mentions something outside the model) -/
+def resolveOp (b bad : Sexp) (fl : Option Sexp) : String :=
+  let ft : Option (List (Nat × Str)) :=
+    match fl with
+    | none => some []
+    | some f => floatTable f
+  match b.bytes?, badList bad, ft with
+  | some bs, some bl, some ft =>
+    match parseTypeR (mkEnvF bl ft) (decodeUtf8 bs) with
+    | .type t => "type " ++ strHex (printTy t)
+    | .reported c => "reported " ++ c.name
+    | .parseError l c => s!"parse-error {l} {c}"
+    | .outside => "outside"
+    | .fault => "fault"
+  | _, _, _ => "bad-op"
 
 end Syn
